@@ -30,8 +30,14 @@ func zzOp(ch *channel, op int, tag byte) {
 		ch.Close(nil)
 	case 8:
 		ch.ReadFrom(&zzFragReader{data: []byte{tag, 5}})
+	case 9:
+		if zzParentCancel != nil {
+			zzParentCancel() // the parent context ends (what Bootstrap.Shutdown does before closing the channels)
+		}
 	}
 }
+
+var zzParentCancel context.CancelFunc
 
 // ZZ_C12_Channel: two user goroutines invoke public channel operations concurrently while the framework's own
 // goroutines (read loop, sender) run; the happens-before monitor checks every access of repository code.
@@ -40,7 +46,9 @@ func ZZ_C12_Channel(q, opA, opB, opC int) {
 	tr.readData = []byte{0x51}
 	pl := NewPipeline()
 	pl.AddLast(&zzBomb{on: -1, reads: true}, &zzExc{mode: 2}, &zzInact{})
-	ch := newChannelWith(vrtBackground(), pl, tr, AsyncExecutor(), 1, q, true).(*channel)
+	parent, cancel := context.WithCancel(context.Background())
+	zzParentCancel = cancel
+	ch := newChannelWith(parent, pl, tr, AsyncExecutor(), 1, q, true).(*channel)
 	pl.ServeChannel(ch)
 	vrt.Facet("opA", opA)
 	vrt.Facet("opB", opB)
